@@ -51,6 +51,10 @@ def run_unphase(vcf_path, outfile):
     unphase_header(reader.header)
     with VariantFile(outfile, mode="w", header=reader.header) as writer:
         for record in reader:
+            if record.contig not in writer.header.contigs:
+                # No ##contig line for this contig: the reader's header learns about it only
+                # while parsing, the writer's copy of the header needs to be told as well
+                writer.header.contigs.add(record.contig)
             for tag in TAGS_TO_REMOVE:
                 if tag in record.format:
                     del record.format[tag]
